@@ -400,6 +400,11 @@ class Indentation(afmformats.AFMForceDistance):
                               names=names,
                               lda=lda)
             rt = rater.rate(datasets=self)[0]
+            if isinstance(training_set, tuple):
+                # do not hold references to the arrays of the caller (an
+                # in-place change would otherwise go unnoticed)
+                training_set = tuple(np.array(ts, copy=True)
+                                     for ts in training_set)
             self._rating = (curhash, regressor, training_set, names, lda, rt)
         else:
             # Use cached rating
